@@ -28,7 +28,7 @@ ReadFail ==
 
 WriteFail ==
   /\ phase = "build" /\ items # <<>>
-  /\ \E kind \in SinkKinds, how \in {"fail", "short", "fail-once"}, at \in 1..(Len(RuleRows(F)) + 1) :
+  /\ \E kind \in SinkKinds, how \in {"fail", "short", "fail-once", "full", "full-once"}, at \in 1..(Len(RuleRows(F)) + 1) :
        /\ at <= Len(Writes(kind, F)) + 1
        /\ op' = [k |-> "write", kind |-> kind, how |-> how, at |-> at, writes |-> Writes(kind, F)]
        /\ result' = WriteResult(kind, F, [how |-> how, at |-> at])
